@@ -595,6 +595,8 @@ pub fn check_transition<const N: usize>(
             }
             "edge-mismatch" => {
                 let tags: Vec<&'static str> = match (swap, op) {
+                    // the vertices merge() creates come from add(): they must be blank (C04)
+                    (Some("C11"), _) => vec!["C11", "C04"],
                     (Some(t), _) => vec![t],
                     (None, Op::Add(_) | Op::AddNext) => vec!["C03", "C04"],
                     _ => vec!["C03"],
